@@ -391,4 +391,108 @@ def _prefix_relation(c: Case, unit: Unit, cu: gen.Compiled, cdir: str, godir: st
             raise Violation("c.name_prefix changed encoded bytes", signature="prefix-bytes")
 
 
-PARTS = [HypPart("gen", lambda tier: strategy_(), run_case, {"quick": 240, "thorough": 4800}, describe=describe)]
+# ---------------------------------------------------------------------------
+# Part 'relations': names with letter/digit boundaries and one-word names, judged by RELATIONS between outputs only
+# ---------------------------------------------------------------------------
+# How a case converter splits `Vec3`, `Sha256Digest` or `Utf8Text` is not fixed by the documentation, so no absolute
+# UPPER_SNAKE form is expected for such names.  Two relations the property states do not depend on it:
+#  (n) a nested definition is named by its enclosing names followed by its own name: the size constant of `Hub > Port2`
+#      is BYTES_LENGTH_ + <what a top-level `Hub` gets> + _ + <what a top-level `Port2` gets>;
+#  (p) c.name_prefix puts the upper-cased prefix in front of every macro name and changes nothing else.
+
+REL_WORDS = ["Vec3", "Port2", "Sha256Digest", "Imu9Dof", "Utf8Text", "Mode4", "Hub", "Link", "Frame", "X25519Key", "Crc32", "Gps"]
+REL_PREFIXES = ["fl_", "my_lib_", "drv_"]
+
+
+@st.composite
+def relation_cases(draw: Any) -> Any:
+    names = list(draw(st.permutations(REL_WORDS)))[: draw(st.integers(3, 6))]
+    # a nesting chain of 2..4 names; the remaining names are further top-level messages
+    depth = draw(st.integers(2, min(4, len(names))))
+    return {"chain": names[:depth], "others": names[depth:], "prefix": draw(st.sampled_from(REL_PREFIXES)), "optimize": draw(st.booleans())}
+
+
+def _relation_texts(c: Any, prefix: str, flat: bool) -> str:
+    lines = ["proto rel" + ("flat" if flat else "nest"), ""]
+    if prefix:
+        lines += [f'option c.name_prefix = "{prefix}"', ""]
+    k = 1
+    if flat:
+        for n in c["chain"] + c["others"]:
+            lines += [f"message {n} {{", f"    uint{k} value = 1", "}", ""]
+            k += 1
+    else:
+        ind = ""
+        for n in c["chain"]:
+            lines += [f"{ind}message {n} {{", f"{ind}    uint{k} value = 1"]
+            ind += "    "
+            k += 1
+        for _ in c["chain"]:
+            ind = ind[:-4]
+            lines.append(f"{ind}}}")
+        lines.append("")
+        for n in c["others"]:
+            lines += [f"message {n} {{", f"    uint{k} value = 1", "}", ""]
+            k += 1
+    return "\n".join(lines)
+
+
+def _size_macros(header: str) -> List[str]:
+    import re
+
+    return re.findall(r"^#define (BYTES_LENGTH_\w+)", header, flags=re.M)
+
+
+def run_relation(c: Any, stats: Stats) -> None:
+    d = env.scratch_dir("rel")
+    try:
+        heads: Dict[Tuple[str, bool], List[str]] = {}
+        for prefix in ("", c["prefix"]):
+            for flat in (True, False):
+                name = "relflat" if flat else "relnest"
+                src = os.path.join(d, f"{name}_{'p' if prefix else 'n'}")
+                os.makedirs(src)
+                from .. import bpapi
+
+                bpapi.write_files(src, {name + ".bitproto": _relation_texts(c, prefix, flat)})
+                out = os.path.join(src, "out")
+                os.makedirs(out)
+                try:
+                    proto = bpapi.parse(os.path.join(src, name + ".bitproto"), traditional_mode=c["optimize"])
+                    bpapi.render(proto, "c", out, optimize=c["optimize"])
+                except Exception as e:
+                    raise Violation(f"style-guide schema failed to compile: {type(e).__name__}: {e}", signature="compile")
+                heads[(prefix, flat)] = _size_macros(open(os.path.join(out, name + "_bp.h")).read())
+                stats.evaluations += 1
+        flat0 = heads[("", True)]
+        want_n = len(c["chain"]) + len(c["others"])
+        if len(flat0) != want_n or len(heads[("", False)]) != want_n:
+            raise Violation(f"expected one BYTES_LENGTH_ macro per message, got {flat0} / {heads[('', False)]}", signature="macro-count")
+        sfx = {n: m[len("BYTES_LENGTH_") :] for n, m in zip(c["chain"] + c["others"], flat0)}
+        # (n) nested = enclosing names followed by the own name
+        want_nested = ["BYTES_LENGTH_" + "_".join(sfx[x] for x in c["chain"][: k + 1]) for k in range(len(c["chain"]))] + ["BYTES_LENGTH_" + sfx[x] for x in c["others"]]
+        if sorted(heads[("", False)]) != sorted(want_nested):
+            raise Violation(
+                f"size constants of nested messages are not 'enclosing names followed by the own name' in the form the same names get at top level: chain {c['chain']}: got {sorted(heads[('', False)])}, expected {sorted(want_nested)} (top-level forms {sfx})",
+                signature="nested-macro-relation",
+            )
+        # (p) the prefix goes in front, upper-cased, and nothing else changes
+        up = c["prefix"].upper()
+        for flat in (True, False):
+            want_p = sorted("BYTES_LENGTH_" + up + m[len("BYTES_LENGTH_") :] for m in heads[("", flat)])
+            if sorted(heads[(c["prefix"], flat)]) != want_p:
+                raise Violation(
+                    f"c.name_prefix = {c['prefix']!r} does not simply put {up} in front of the size constants ({'flat' if flat else 'nested'} {c['chain']} + {c['others']}): got {sorted(heads[(c['prefix'], flat)])}, expected {want_p}",
+                    signature="prefix-macro-relation",
+                )
+        stats.count("relations:digit_names" if any(ch.isdigit() for n in c["chain"] for ch in n) else "relations:plain_names")
+        stats.mark_nontrivial("rel", tuple(c["chain"]), tuple(c["others"]), c["prefix"], c["optimize"])
+        stats.sample({"chain": c["chain"], "others": c["others"], "prefix": c["prefix"], "macros_nested": heads[("", False)], "macros_prefixed": heads[(c["prefix"], False)]})
+    finally:
+        env.rmtree(d)
+
+
+PARTS = [
+    HypPart("gen", lambda tier: strategy_(), run_case, {"quick": 240, "thorough": 4800}, describe=describe),
+    HypPart("relations", lambda tier: relation_cases(), run_relation, {"quick": 160, "thorough": 1600}, describe=lambda c: {"case": c, "nested_schema": _relation_texts(c, c["prefix"], False)}),
+]
